@@ -356,8 +356,11 @@ theorem advance_ok (nfa : Nfa) (lim : Limits) (r : Run) (e : Ev) (hw : NfaWf nfa
       | none =>
         simp only [Bool.false_eq_true, if_false]
         by_cases hea : st.epsAccept = true
-        · simp only [hea, if_true, AdvOk]; exact runInv_push' h _ _
-        · simp only [hea, AdvOk]
+        · simp only [hea, Bool.true_and, if_true]
+          split
+          · exact h
+          · exact runInv_push' h _ _
+        · simp only [hea, Bool.false_and, Bool.false_eq_true, if_false, AdvOk]
           refine ⟨h.1, ?_⟩
           intro k hk'
           simp only [Option.some.injEq] at hk'
@@ -370,8 +373,11 @@ theorem advance_ok (nfa : Nfa) (lim : Limits) (r : Run) (e : Ev) (hw : NfaWf nfa
         · simp only [hcap, decide_true, if_true, AdvOk]; exact h
         · simp only [hcap, decide_false, Bool.false_eq_true, if_false]
           by_cases hea : st.epsAccept = true
-          · simp only [hea, if_true, AdvOk]; exact runInv_push' h _ _
-          · simp only [hea, AdvOk]
+          · simp only [hea, Bool.true_and, if_true]
+            split
+            · exact h
+            · exact runInv_push' h _ _
+          · simp only [hea, Bool.false_and, Bool.false_eq_true, if_false, AdvOk]
             refine ⟨h.1, ?_⟩
             intro k hk''
             simp only [Option.some.injEq] at hk''
@@ -716,7 +722,8 @@ theorem advT_loop (pa pe : Option Pred) (lim : Limits) (eA last e : Ev) (kept : 
   have hcapset : Cap.set (capAB eA last) 1 e = capAB eA e := by simp [Cap.set, capAB]
   by_cases h1 : e.ty = 1
   · by_cases hok : predOk pe e (capAB eA last) = true
-    · simp [advance, nfaTrail, runT, matchT, matchesState, tyOk, h1, hok, Run.push, Cap.setOpt, hcapset]
+    · have hn : predOk none e (capAB eA last) = true := rfl
+      simp [advance, nfaTrail, runT, matchT, matchesState, tyOk, h1, hok, Run.push, Cap.setOpt, hcapset, hn]
     · simp [advance, nfaTrail, runT, matchesState, tyOk, h1, hok, tryTransitions, tryEps, tryEpsTargets]
   · simp [advance, nfaTrail, runT, matchesState, tyOk, h1, tryTransitions, tryEps, tryEpsTargets]
 
